@@ -298,6 +298,10 @@ type World struct {
 	// oracle bookkeeping
 	writeLog    []map[gossip.Entry]bool
 	everExpired [][]bool
+	// heard[i][x]: a delta datagram from x was delivered to i while i had x
+	// marked unreachable (and i has not suspected x again since)
+	heard           [][]bool
+	heardAtLiveness []bool
 	viol        []violation
 	streamBytes [][]byte
 	Stats       *Stats
@@ -357,6 +361,7 @@ func NewWorld(sc *Scenario, st *Stats) *World {
 	for i := range w.blocked {
 		w.blocked[i] = make([]bool, n)
 		w.everExpired[i] = make([]bool, n)
+		w.heard = append(w.heard, make([]bool, n))
 	}
 	for _, b := range sc.Blocked {
 		w.blocked[b[0]][b[1]] = true
@@ -638,6 +643,11 @@ func (w *World) deliver(p *Packet) {
 	}
 	nd := w.nodes[p.To]
 	pre := w.snapLocal(p.To)
+	if !p.Digest && len(p.Data) <= w.sc.MaxPacket {
+		if md, ok := w.meta(p.To, w.nodes[p.From].ID); ok && md.Unreachable {
+			w.heard[p.To][p.From] = true
+		}
+	}
 	var before map[string]bool
 	if w.sc.Oracles.C11 {
 		before = w.knownIDs(p.To)
